@@ -192,6 +192,36 @@ def check_from_json_sites(ctx, rep):
                     rep.bad('C13.W', k2, where(ci.module, n), {'call': norm_text(n)[:100]},
                             f"{ci.name}.from_json builds the nested specification data['{nested_key}'] with a direct "
                             f"{ast.unparse(n.func)}(...) call: the object is never registered and a duplicate id is not detected")
+        # W3: a registered object must reach the constructor itself, not a private copy built from its id / tensor
+        reg_names = set()
+        reg_subs = set()
+        for st in ast.walk(fn):
+            if isinstance(st, ast.Assign) and len(st.targets) == 1:
+                v = st.value
+                from_reg = any(isinstance(c, ast.Call) and (dotted_name(c.func) or '').split('.')[-1] in PROCESS_FUNCS for c in ast.walk(v)) or \
+                    any(isinstance(x, ast.Subscript) and isinstance(x.value, ast.Name) and x.value.id == dic and isinstance(x.ctx, ast.Load) for x in ast.walk(v))
+                if from_reg:
+                    t = st.targets[0]
+                    if isinstance(t, ast.Name):
+                        reg_names.add(t.id)
+                    elif isinstance(t, ast.Subscript) and isinstance(t.value, ast.Name):
+                        reg_subs.add(t.value.id)
+        for c in ast.walk(fn):
+            if not isinstance(c, ast.Call):
+                continue
+            tcls = ctx.classes.resolve_class_expr(ci.module, c.func)
+            if tcls is None or not tcls.has_base('torchtree.core.abstractparameter.AbstractParameter'):
+                continue
+            for a in list(c.args) + [kw.value for kw in c.keywords]:
+                for x in ast.walk(a):
+                    if isinstance(x, ast.Attribute) and x.attr in ('tensor', 'id'):
+                        base = x.value
+                        hit = (isinstance(base, ast.Name) and base.id in reg_names) or \
+                              (isinstance(base, ast.Subscript) and isinstance(base.value, ast.Name) and base.value.id in reg_subs)
+                        if hit:
+                            rep.bad('C13.W', f"{ci.qualname}::private-copy@{norm_text(base)}", where(ci.module, c), {'call': norm_text(c)[:120]},
+                                    f"{ci.name}.from_json builds a new {tcls.name} from `{norm_text(base)}`, an object it obtained from the registry: the model "
+                                    f"holds a private copy, so an update made through the registered object (another holder, an operator, a prior) is not seen")
         # W2: silent registry lookups (dic.get / `in dic` fallback) and unguarded direct stores
         cfg = None
         for n in ast.walk(fn):
@@ -363,6 +393,23 @@ def check_remove_comments(ctx, rep):
     rep.check('C13.M', 'remove_comments::shape', has_underscore and len(dels) >= 2 and len(rec) >= 2 and {'list', 'dict'} <= isinst and ignore, W,
               {'deletes': len(dels), 'recursive_calls': len(rec), 'handles': sorted(isinst)},
               "remove_comments no longer deletes '_'-prefixed keys and ignore:true objects at every nesting level (dict values and list items)")
+    # deleting from the container being iterated: only over a reversed index range or over a copy
+    bad_del = []
+    for lp in [n for n in ast.walk(src) if isinstance(n, ast.For)]:
+        dels_in = [d for d in ast.walk(lp) if isinstance(d, ast.Delete)]
+        if not dels_in:
+            continue
+        it = lp.iter
+        txt = ast.unparse(it)
+        reverse_range = isinstance(it, ast.Call) and isinstance(it.func, ast.Name) and it.func.id == 'range' and len(it.args) == 3 \
+            and isinstance(it.args[2], ast.UnaryOp) and isinstance(it.args[2].op, ast.USub)
+        is_copy = isinstance(it, ast.Call) and ((isinstance(it.func, ast.Name) and it.func.id in ('list', 'tuple', 'sorted', 'reversed'))
+                                                or (isinstance(it.func, ast.Attribute) and it.func.attr == 'copy'))
+        if not (reverse_range or is_copy):
+            bad_del.append((lp.lineno, txt))
+    rep.check('C13.M', 'remove_comments::no-deletion-while-iterating-forward', not bad_del, W, {'loops': bad_del},
+              f"remove_comments deletes from the container it iterates over in forward order ({bad_del[:1]}): the element after a deleted one is skipped, "
+              f"so an ignored object / comment key that follows another one survives")
     # the recursion on dict values happens for kept keys, deletion for the others: the If that tests startswith has both branches
     ok = False
     for n in ast.walk(src):
@@ -415,8 +462,68 @@ def factory_keys(fn: ast.FunctionDef):
     return may, types, open_
 
 
+def flag_reads(ctx):
+    """key -> {'presence': [(ci, fn, node)], 'value': [(ci, fn, node)]} over all from_json: how optional keys are consulted."""
+    out: Dict[str, Dict[str, list]] = {}
+    for ci, fn in all_from_json(ctx):
+        params = [a.arg for a in fn.args.args]
+        if len(params) < 2:
+            continue
+        data = params[1]
+        value_keys = set()
+        for n in ast.walk(fn):
+            if isinstance(n, ast.Subscript) and isinstance(n.value, ast.Name) and n.value.id == data and isinstance(n.ctx, ast.Load):
+                k = const_key(ctx, ci.module, n.slice)
+                if k:
+                    value_keys.add(k)
+            if isinstance(n, ast.Call) and isinstance(n.func, ast.Attribute) and n.func.attr in ('get', 'pop') and isinstance(n.func.value, ast.Name) \
+                    and n.func.value.id == data and n.args:
+                k = const_key(ctx, ci.module, n.args[0])
+                if k:
+                    value_keys.add(k)
+                    if len(n.args) > 1 and isinstance(n.args[1], ast.Constant) and isinstance(n.args[1].value, bool):
+                        out.setdefault(k, {'presence': [], 'value': []})['value'].append((ci, fn, n))
+            if isinstance(n, ast.Call) and (dotted_name(n.func) or '').split('.')[-1] in ('process_objects', 'process_object_with_key'):
+                for kw in n.keywords:
+                    if kw.arg == 'key':
+                        k = const_key(ctx, ci.module, kw.value)
+                        if k:
+                            value_keys.add(k)
+                if (dotted_name(n.func) or '').endswith('process_object_with_key') and n.args:
+                    k = const_key(ctx, ci.module, n.args[0])
+                    if k:
+                        value_keys.add(k)
+        for n in ast.walk(fn):
+            if isinstance(n, ast.Compare) and len(n.ops) == 1 and isinstance(n.ops[0], ast.In) and isinstance(n.comparators[0], ast.Name) \
+                    and n.comparators[0].id == data:
+                k = const_key(ctx, ci.module, n.left)
+                if k and k not in value_keys:
+                    out.setdefault(k, {'presence': [], 'value': []})['presence'].append((ci, fn, n))
+    return out
+
+
+def check_flag_semantics(ctx, rep):
+    """An optional key that one reader consults only by presence (`'k' in data`) while sibling readers consult the same key by its
+    boolean value is a deviant: `"k": false` then switches the behaviour on."""
+    reads = flag_reads(ctx)
+    n = 0
+    for k, d in sorted(reads.items()):
+        if not d['value']:
+            continue
+        for ci, fn, node in d['presence']:
+            n += 1
+            rep.bad('C13.F', f"{ci.qualname}::flag:{k}", where(ci.module, node),
+                    {'key': k, 'read_by_value_in': sorted({c.name for c, _, _ in d['value']})},
+                    f"{ci.name}.from_json only tests whether '{k}' is present, while {sorted({c.name for c, _, _ in d['value']})} read the same option by its "
+                    f"boolean value: a specification (or json_factory) giving \"{k}\": false switches the behaviour on")
+        for ci, fn, node in d['value']:
+            rep.ok('C13.F', f"{ci.qualname}::flag:{k}", where(ci.module, node), {'key': k})
+    return reads
+
+
 def check_factories(ctx, rep):
     registered = ctx.classes.registered()
+    reads = check_flag_semantics(ctx, rep)
     n = 0
     for ci in sorted(ctx.classes.classes.values(), key=lambda c: c.qualname):
         fac = ci.methods.get('json_factory')
@@ -450,6 +557,18 @@ def check_factories(ctx, rep):
             rep.check('C13.F', key, not missing, W, facts,
                       f"{ci.name}.from_json dereferences {missing} on every path but {ci.name}.json_factory never writes "
                       f"{'them' if len(missing) > 1 else 'it'}: specifications produced by the factory do not load")
+        # a key the reader consults only by presence must be written by the factory only conditionally
+        pres = {k for k, d in reads.items() for c2, f2, nd in d['presence'] if f2 is r[1]}
+        uncond = set()
+        for nn in ast.walk(fac):
+            if isinstance(nn, ast.Dict):
+                par = getattr(nn, '_parent', None)
+                if isinstance(par, (ast.Return, ast.Assign)) and not any(isinstance(p, (ast.If, ast.For)) for p in _parents(nn, fac)):
+                    uncond |= {kk.value for kk in nn.keys if isinstance(kk, ast.Constant)}
+        for k in sorted(pres & uncond):
+            rep.bad('C13.F', f"{key}::factory-always-writes-{k}", W, {'key': k},
+                    f"{ci.name}.json_factory always writes '{k}' but {ci.name}.from_json switches on its mere presence: factory-built specifications "
+                    f"behave as if the option were set")
         # the type written resolves to this class (or a subclass-compatible registered name)
         for t in sorted(types):
             short = t.split('.')[-1]
